@@ -29,11 +29,17 @@ returned dictionary / content) -/
 structure StructDec where
   xref : Dict → Bytes → Outcome (XTable × Nat × Dict)
   objstm : Dict → Bytes → Outcome (Dict × Bytes × List (ObjId × Obj))
+  /-- an object-stream container whose content could NOT be delimited while parsing (no usable Length): `none` = it is
+  deferred like any other such stream (the reading of Model/Read.lean); `some (d', c')` = `ObjectStream::new` ran on the
+  still-empty stream — it is kept as `d'` / `c'`, contributes no members and is NOT completed later (lopdf: the deferred
+  list is filled only in the `else` branch of the ObjStm test) -/
+  deferred : Dict → Outcome (Option (Dict × Bytes))
 
 def plainDec : StructDec :=
   { xref := decodeXrefStream,
     objstm := fun d c => match objStmObjects d c with
-      | .ok l => .ok (d, c, l) | .err e => .err e | .panic s => .panic s }
+      | .ok l => .ok (d, c, l) | .err e => .err e | .panic s => .panic s,
+    deferred := fun _ => .ok none }
 
 /-! ### the specification codecs as `Ext` -/
 
@@ -76,7 +82,17 @@ def flateDec : StructDec :=
            | .ok l => .ok (s.dict, s.content, l) | .err e => .err e | .panic p => .panic p)
         | _ => .err "ext"                              -- undecodable container read raw: not modelled
       else match objStmObjects d c with
-        | .ok l => .ok (d, c, l) | .err e => .err e | .panic s => .panic s }
+        | .ok l => .ok (d, c, l) | .err e => .err e | .panic s => .panic s,
+    deferred := fun d =>
+      -- `ObjectStream::new` on the empty stream: `let _ = stream.decompress()` (an empty input decodes to nothing; without a
+      -- Filter, or with one that fails, nothing changes), then `content.is_empty()` => no members
+      if d.has FILTER then
+        if !streamComplete d [] then .err "ext" else
+        match decompress specExt ⟨d, []⟩ with
+        | .ok s => if s.content.isEmpty then .ok (some (s.dict, [])) else .err "ext"
+        | .err _ => .ok (some (d, []))
+        | .panic p => .panic p
+      else .ok (some (d, [])) }
 
 /-! ### the reader, generic in `StructDec` (same code as Model/Read.lean) -/
 
@@ -146,6 +162,15 @@ def loadStepG (sd : StructDec) (buf : Bytes) (x : XTable) (nEntries : Nat) (acc 
              if Dict.getTypeIs d OBJSTM then
                (match sd.objstm d c with
                 | .ok (d', c', objs) => .ok (os.insert id (.plain (.stream d' c')), fromStm ++ [(e.1, objs)])
+                | .err "ext" => .err "ext"
+                | .err _ => .ok (os, fromStm)
+                | .panic s => .panic s)
+             else .ok (os.insert id lo, fromStm)
+           | .pending d _ =>
+             if Dict.getTypeIs d OBJSTM then
+               (match sd.deferred d with
+                | .ok none => .ok (os.insert id lo, fromStm)
+                | .ok (some (d', c')) => .ok (os.insert id (.plain (.stream d' c')), fromStm ++ [(e.1, [])])
                 | .err "ext" => .err "ext"
                 | .err _ => .ok (os, fromStm)
                 | .panic s => .panic s)
